@@ -29,7 +29,7 @@ ASSUMPTIONS = ['the per-pair limit (parallel-connection cap = max(2, largest fin
 LEANCHECK_MODULES = ['Adsg.Model.Conn', 'Adsg.Props.C09']
 
 ALPHA = [('list', [0, 1]), ('list', [1]), ('list', [0, 1, 2]), ('list', [1, 2]), ('list', [2]), ('list', [0, 2]),
-         ('list', [1, 3]), ('min', 0), ('min', 1), ('min', 2)]
+         ('list', [1, 3]), ('min', 0), ('min', 1), ('min', 2), ('list', [1, 1]), ('list', [2, 0, 2])]
 OVERRIDES = [[0], [1], [0, 1], [1, 2], [2], [0, 2], [2, 3], [1, 2, 3]]
 
 
@@ -41,8 +41,9 @@ def mk(spec):
 
 
 def jnode(spec):
-    (kind, v), rep = spec
-    return {'deg': {'list': list(v)} if kind == 'list' else {'min': v}, 'rep': rep}
+    """The model's degree list is the Node's `conns` attribute (what the constructor stored)."""
+    nd = mk(spec)
+    return {'deg': {'list': [int(c) for c in nd.conns]} if nd.conns is not None else {'min': int(nd.min_conns)}, 'rep': bool(nd.rep)}
 
 
 def jexist(ns, nt, ex):
